@@ -63,7 +63,7 @@ package model
 //@ spec fnRes0(m *types.Func) types.Type = typeOfObj(tupleAt(sigResults(as(typeOfObj(m), *types.Signature)), 0))
 //@ spec fnNRes(m *types.Func) int = tupleLen(sigResults(as(typeOfObj(m), *types.Signature)))
 //@
-//@ spec wfNode(n Node) bool = n != nil &&
+//@ spec opaque wfNode(n Node) bool = n != nil &&
 //@     cond(is(n, RootNode), as(n, RootNode).typ != nil,
 //@     cond(is(n, ScalarNode), as(n, ScalarNode).typ != nil && (as(n, ScalarNode).parent == nil || wfNode(as(n, ScalarNode).parent)),
 //@     cond(is(n, StructFieldNode), as(n, StructFieldNode).field != nil && wfNode(as(n, StructFieldNode).parent),
@@ -75,7 +75,7 @@ package model
 //@     cond(is(n, ConverterNode), as(n, ConverterNode).converter != nil && as(n, ConverterNode).converter.retType != nil && as(n, ConverterNode).converter.argType != nil && wfNode(as(n, ConverterNode).arg),
 //@          false)))))))
 //@
-//@ spec assignExpr(n Node) string =
+//@ spec opaque assignExpr(n Node) string =
 //@     cond(is(n, RootNode), as(n, RootNode).name,
 //@     cond(is(n, ScalarNode), cond(as(n, ScalarNode).parent != nil, assignExpr(as(n, ScalarNode).parent), as(n, ScalarNode).name),
 //@     cond(is(n, StructFieldNode), assignExpr(as(n, StructFieldNode).parent) + "." + nameOf(as(n, StructFieldNode).field),
@@ -86,7 +86,7 @@ package model
 //@          cond(!isPtrT(exprType(as(n, ConverterNode).arg)) && isPtrT(as(n, ConverterNode).converter.argType), "&", "") +
 //@          assignExpr(as(n, ConverterNode).arg) + ")",
 //@          otherNodeText(n))))))))
-//@ spec matcherExpr(n Node) string =
+//@ spec opaque matcherExpr(n Node) string =
 //@     cond(is(n, RootNode), "",
 //@     cond(is(n, ScalarNode), cond(as(n, ScalarNode).parent != nil, matcherExpr(as(n, ScalarNode).parent), ""),
 //@     cond(is(n, StructFieldNode), cond(matcherExpr(as(n, StructFieldNode).parent) == "", nameOf(as(n, StructFieldNode).field),
@@ -96,7 +96,7 @@ package model
 //@     cond(is(n, TypecastEntry), matcherExpr(as(n, TypecastEntry).inner),
 //@     cond(is(n, StringerEntry), matcherExpr(as(n, StringerEntry).inner),
 //@     cond(is(n, ConverterNode), matcherExpr(as(n, ConverterNode).arg), otherNodeText(n))))))))
-//@ spec exprType(n Node) types.Type =
+//@ spec opaque exprType(n Node) types.Type =
 //@     cond(is(n, RootNode), as(n, RootNode).typ,
 //@     cond(is(n, ScalarNode), as(n, ScalarNode).typ,
 //@     cond(is(n, StructFieldNode), typeOfObj(as(n, StructFieldNode).field),
@@ -104,7 +104,7 @@ package model
 //@     cond(is(n, TypecastEntry), as(n, TypecastEntry).typ,
 //@     cond(is(n, StringerEntry), stringTypeOf(),
 //@     cond(is(n, ConverterNode), as(n, ConverterNode).converter.retType, otherNodeType(n))))))))
-//@ spec objNameOf(n Node) string =
+//@ spec opaque objNameOf(n Node) string =
 //@     cond(is(n, RootNode), as(n, RootNode).name,
 //@     cond(is(n, ScalarNode), as(n, ScalarNode).name,
 //@     cond(is(n, StructFieldNode), nameOf(as(n, StructFieldNode).field),
@@ -112,7 +112,7 @@ package model
 //@     cond(is(n, TypecastEntry), objNameOf(as(n, TypecastEntry).inner),
 //@     cond(is(n, StringerEntry), objNameOf(as(n, StringerEntry).inner),
 //@     cond(is(n, ConverterNode), objNameOf(as(n, ConverterNode).arg), otherNodeText(n))))))))
-//@ spec parentOf(n Node) Node =
+//@ spec opaque parentOf(n Node) Node =
 //@     cond(is(n, RootNode), nil,
 //@     cond(is(n, ScalarNode), as(n, ScalarNode).parent,
 //@     cond(is(n, StructFieldNode), as(n, StructFieldNode).parent,
@@ -120,7 +120,7 @@ package model
 //@     cond(is(n, TypecastEntry), parentOf(as(n, TypecastEntry).inner),
 //@     cond(is(n, StringerEntry), parentOf(as(n, StringerEntry).inner),
 //@     cond(is(n, ConverterNode), parentOf(as(n, ConverterNode).arg), otherNodeParent(n))))))))
-//@ spec returnsError(n Node) bool =
+//@ spec opaque returnsError(n Node) bool =
 //@     cond(is(n, StructMethodNode), fnNRes(as(n, StructMethodNode).method) == 2,
 //@     cond(is(n, ConverterNode), as(n, ConverterNode).converter.retError,
 //@     cond(is(n, RootNode) || is(n, ScalarNode) || is(n, StructFieldNode) || is(n, TypecastEntry) || is(n, StringerEntry), false,
@@ -132,7 +132,7 @@ package model
 //@ iface (Node).ObjName = objNameOf requires wfNode
 //@ iface (Node).Parent = parentOf requires wfNode
 //@ iface (Node).ReturnsError = returnsError requires wfNode
-//@ spec objNullable(n Node) bool =
+//@ spec opaque objNullable(n Node) bool =
 //@     cond(is(n, RootNode), isPtrT(as(n, RootNode).typ),
 //@     cond(is(n, ScalarNode), isPtrT(as(n, ScalarNode).typ),
 //@     cond(is(n, StructFieldNode), isPtrT(typeOfObj(as(n, StructFieldNode).field)),
@@ -140,7 +140,7 @@ package model
 //@     cond(is(n, TypecastEntry), objNullable(as(n, TypecastEntry).inner),
 //@     cond(is(n, StringerEntry), objNullable(as(n, StringerEntry).inner),
 //@     cond(is(n, ConverterNode), objNullable(as(n, ConverterNode).arg), otherNodeBool(n))))))))
-//@ spec nullCheckExpr(n Node) string =
+//@ spec opaque nullCheckExpr(n Node) string =
 //@     cond(is(n, RootNode), as(n, RootNode).name,
 //@     cond(is(n, ScalarNode), cond(as(n, ScalarNode).parent != nil, nullCheckExpr(as(n, ScalarNode).parent), as(n, ScalarNode).name),
 //@     cond(is(n, StructFieldNode), assignExpr(as(n, StructFieldNode).parent) + "." + nameOf(as(n, StructFieldNode).field),
@@ -152,192 +152,253 @@ package model
 //@ iface (Node).NullCheckExpr = nullCheckExpr requires wfNode
 //@
 //@ func (RootNode).AssignExpr(n) (r)
+//@   reveal wfNode, assignExpr, matcherExpr, exprType, objNameOf, parentOf, returnsError, objNullable, nullCheckExpr
 //@   requires wfNode(box(n))
 //@   ensures {C02,C01,C06} r == assignExpr(box(n))
 //@ func (RootNode).MatcherExpr(n) (r)
+//@   reveal wfNode, assignExpr, matcherExpr, exprType, objNameOf, parentOf, returnsError, objNullable, nullCheckExpr
 //@   requires wfNode(box(n))
 //@   ensures {C06} r == matcherExpr(box(n))
 //@ func (RootNode).ExprType(n) (r)
+//@   reveal wfNode, assignExpr, matcherExpr, exprType, objNameOf, parentOf, returnsError, objNullable, nullCheckExpr
 //@   requires wfNode(box(n))
 //@   ensures {C04,C01} r == exprType(box(n))
 //@ func (RootNode).ObjName(n) (r)
+//@   reveal wfNode, assignExpr, matcherExpr, exprType, objNameOf, parentOf, returnsError, objNullable, nullCheckExpr
 //@   requires wfNode(box(n))
 //@   ensures {C04} r == objNameOf(box(n))
 //@ func (RootNode).Parent(n) (r)
+//@   reveal wfNode, assignExpr, matcherExpr, exprType, objNameOf, parentOf, returnsError, objNullable, nullCheckExpr
 //@   requires wfNode(box(n))
 //@   ensures {C06} r == parentOf(box(n))
 //@ func (RootNode).ReturnsError(n) (r)
+//@   reveal wfNode, assignExpr, matcherExpr, exprType, objNameOf, parentOf, returnsError, objNullable, nullCheckExpr
 //@   requires wfNode(box(n))
 //@   ensures {C07} r == returnsError(box(n))
 //@ func (RootNode).ObjNullable(n) (r)
+//@   reveal wfNode, assignExpr, matcherExpr, exprType, objNameOf, parentOf, returnsError, objNullable, nullCheckExpr
 //@   requires wfNode(box(n))
 //@   ensures {C02} r == objNullable(box(n))
 //@ func (RootNode).NullCheckExpr(n) (r)
+//@   reveal wfNode, assignExpr, matcherExpr, exprType, objNameOf, parentOf, returnsError, objNullable, nullCheckExpr
 //@   requires wfNode(box(n))
 //@   ensures {C02} r == nullCheckExpr(box(n))
 //@ func (ScalarNode).AssignExpr(n) (r)
+//@   reveal wfNode, assignExpr, matcherExpr, exprType, objNameOf, parentOf, returnsError, objNullable, nullCheckExpr
 //@   requires wfNode(box(n))
 //@   ensures {C02,C01,C06} r == assignExpr(box(n))
 //@ func (ScalarNode).MatcherExpr(n) (r)
+//@   reveal wfNode, assignExpr, matcherExpr, exprType, objNameOf, parentOf, returnsError, objNullable, nullCheckExpr
 //@   requires wfNode(box(n))
 //@   ensures {C06} r == matcherExpr(box(n))
 //@ func (ScalarNode).ExprType(n) (r)
+//@   reveal wfNode, assignExpr, matcherExpr, exprType, objNameOf, parentOf, returnsError, objNullable, nullCheckExpr
 //@   requires wfNode(box(n))
 //@   ensures {C04,C01} r == exprType(box(n))
 //@ func (ScalarNode).ObjName(n) (r)
+//@   reveal wfNode, assignExpr, matcherExpr, exprType, objNameOf, parentOf, returnsError, objNullable, nullCheckExpr
 //@   requires wfNode(box(n))
 //@   ensures {C04} r == objNameOf(box(n))
 //@ func (ScalarNode).Parent(n) (r)
+//@   reveal wfNode, assignExpr, matcherExpr, exprType, objNameOf, parentOf, returnsError, objNullable, nullCheckExpr
 //@   requires wfNode(box(n))
 //@   ensures {C06} r == parentOf(box(n))
 //@ func (ScalarNode).ReturnsError(n) (r)
+//@   reveal wfNode, assignExpr, matcherExpr, exprType, objNameOf, parentOf, returnsError, objNullable, nullCheckExpr
 //@   requires wfNode(box(n))
 //@   ensures {C07} r == returnsError(box(n))
 //@ func (ScalarNode).ObjNullable(n) (r)
+//@   reveal wfNode, assignExpr, matcherExpr, exprType, objNameOf, parentOf, returnsError, objNullable, nullCheckExpr
 //@   requires wfNode(box(n))
 //@   ensures {C02} r == objNullable(box(n))
 //@ func (ScalarNode).NullCheckExpr(n) (r)
+//@   reveal wfNode, assignExpr, matcherExpr, exprType, objNameOf, parentOf, returnsError, objNullable, nullCheckExpr
 //@   requires wfNode(box(n))
 //@   ensures {C02} r == nullCheckExpr(box(n))
 //@ func (ConverterNode).AssignExpr(n) (r)
+//@   reveal wfNode, assignExpr, matcherExpr, exprType, objNameOf, parentOf, returnsError, objNullable, nullCheckExpr
 //@   requires wfNode(box(n))
 //@   ensures {C02,C01,C06} r == assignExpr(box(n))
 //@ func (ConverterNode).MatcherExpr(n) (r)
+//@   reveal wfNode, assignExpr, matcherExpr, exprType, objNameOf, parentOf, returnsError, objNullable, nullCheckExpr
 //@   requires wfNode(box(n))
 //@   ensures {C06} r == matcherExpr(box(n))
 //@ func (ConverterNode).ExprType(n) (r)
+//@   reveal wfNode, assignExpr, matcherExpr, exprType, objNameOf, parentOf, returnsError, objNullable, nullCheckExpr
 //@   requires wfNode(box(n))
 //@   ensures {C04,C01} r == exprType(box(n))
 //@ func (ConverterNode).ObjName(n) (r)
+//@   reveal wfNode, assignExpr, matcherExpr, exprType, objNameOf, parentOf, returnsError, objNullable, nullCheckExpr
 //@   requires wfNode(box(n))
 //@   ensures {C04} r == objNameOf(box(n))
 //@ func (ConverterNode).Parent(n) (r)
+//@   reveal wfNode, assignExpr, matcherExpr, exprType, objNameOf, parentOf, returnsError, objNullable, nullCheckExpr
 //@   requires wfNode(box(n))
 //@   ensures {C06} r == parentOf(box(n))
 //@ func (ConverterNode).ReturnsError(n) (r)
+//@   reveal wfNode, assignExpr, matcherExpr, exprType, objNameOf, parentOf, returnsError, objNullable, nullCheckExpr
 //@   requires wfNode(box(n))
 //@   ensures {C07} r == returnsError(box(n))
 //@ func (ConverterNode).ObjNullable(n) (r)
+//@   reveal wfNode, assignExpr, matcherExpr, exprType, objNameOf, parentOf, returnsError, objNullable, nullCheckExpr
 //@   requires wfNode(box(n))
 //@   ensures {C02} r == objNullable(box(n))
 //@ func (ConverterNode).NullCheckExpr(n) (r)
+//@   reveal wfNode, assignExpr, matcherExpr, exprType, objNameOf, parentOf, returnsError, objNullable, nullCheckExpr
 //@   requires wfNode(box(n))
 //@   ensures {C02} r == nullCheckExpr(box(n))
 //@ func (TypecastEntry).AssignExpr(n) (r)
+//@   reveal wfNode, assignExpr, matcherExpr, exprType, objNameOf, parentOf, returnsError, objNullable, nullCheckExpr
 //@   requires wfNode(box(n))
 //@   ensures {C02,C01,C06} r == assignExpr(box(n))
 //@ func (TypecastEntry).MatcherExpr(n) (r)
+//@   reveal wfNode, assignExpr, matcherExpr, exprType, objNameOf, parentOf, returnsError, objNullable, nullCheckExpr
 //@   requires wfNode(box(n))
 //@   ensures {C06} r == matcherExpr(box(n))
 //@ func (TypecastEntry).ExprType(n) (r)
+//@   reveal wfNode, assignExpr, matcherExpr, exprType, objNameOf, parentOf, returnsError, objNullable, nullCheckExpr
 //@   requires wfNode(box(n))
 //@   ensures {C04,C01} r == exprType(box(n))
 //@ func (TypecastEntry).ObjName(n) (r)
+//@   reveal wfNode, assignExpr, matcherExpr, exprType, objNameOf, parentOf, returnsError, objNullable, nullCheckExpr
 //@   requires wfNode(box(n))
 //@   ensures {C04} r == objNameOf(box(n))
 //@ func (TypecastEntry).Parent(n) (r)
+//@   reveal wfNode, assignExpr, matcherExpr, exprType, objNameOf, parentOf, returnsError, objNullable, nullCheckExpr
 //@   requires wfNode(box(n))
 //@   ensures {C06} r == parentOf(box(n))
 //@ func (TypecastEntry).ReturnsError(n) (r)
+//@   reveal wfNode, assignExpr, matcherExpr, exprType, objNameOf, parentOf, returnsError, objNullable, nullCheckExpr
 //@   requires wfNode(box(n))
 //@   ensures {C07} r == returnsError(box(n))
 //@ func (TypecastEntry).ObjNullable(n) (r)
+//@   reveal wfNode, assignExpr, matcherExpr, exprType, objNameOf, parentOf, returnsError, objNullable, nullCheckExpr
 //@   requires wfNode(box(n))
 //@   ensures {C02} r == objNullable(box(n))
 //@ func (TypecastEntry).NullCheckExpr(n) (r)
+//@   reveal wfNode, assignExpr, matcherExpr, exprType, objNameOf, parentOf, returnsError, objNullable, nullCheckExpr
 //@   requires wfNode(box(n))
 //@   ensures {C02} r == nullCheckExpr(box(n))
 //@ func (StringerEntry).AssignExpr(n) (r)
+//@   reveal wfNode, assignExpr, matcherExpr, exprType, objNameOf, parentOf, returnsError, objNullable, nullCheckExpr
 //@   requires wfNode(box(n))
 //@   ensures {C02,C01,C06} r == assignExpr(box(n))
 //@ func (StringerEntry).MatcherExpr(n) (r)
+//@   reveal wfNode, assignExpr, matcherExpr, exprType, objNameOf, parentOf, returnsError, objNullable, nullCheckExpr
 //@   requires wfNode(box(n))
 //@   ensures {C06} r == matcherExpr(box(n))
 //@ func (StringerEntry).ExprType(n) (r)
+//@   reveal wfNode, assignExpr, matcherExpr, exprType, objNameOf, parentOf, returnsError, objNullable, nullCheckExpr
 //@   requires wfNode(box(n))
 //@   use T10()
 //@   ensures {C04,C01} r == exprType(box(n))
 //@ func (StringerEntry).ObjName(n) (r)
+//@   reveal wfNode, assignExpr, matcherExpr, exprType, objNameOf, parentOf, returnsError, objNullable, nullCheckExpr
 //@   requires wfNode(box(n))
 //@   ensures {C04} r == objNameOf(box(n))
 //@ func (StringerEntry).Parent(n) (r)
+//@   reveal wfNode, assignExpr, matcherExpr, exprType, objNameOf, parentOf, returnsError, objNullable, nullCheckExpr
 //@   requires wfNode(box(n))
 //@   ensures {C06} r == parentOf(box(n))
 //@ func (StringerEntry).ReturnsError(n) (r)
+//@   reveal wfNode, assignExpr, matcherExpr, exprType, objNameOf, parentOf, returnsError, objNullable, nullCheckExpr
 //@   requires wfNode(box(n))
 //@   ensures {C07} r == returnsError(box(n))
 //@ func (StringerEntry).ObjNullable(n) (r)
+//@   reveal wfNode, assignExpr, matcherExpr, exprType, objNameOf, parentOf, returnsError, objNullable, nullCheckExpr
 //@   requires wfNode(box(n))
 //@   ensures {C02} r == objNullable(box(n))
 //@ func (StringerEntry).NullCheckExpr(n) (r)
+//@   reveal wfNode, assignExpr, matcherExpr, exprType, objNameOf, parentOf, returnsError, objNullable, nullCheckExpr
 //@   requires wfNode(box(n))
 //@   ensures {C02} r == nullCheckExpr(box(n))
 //@ func (StructFieldNode).AssignExpr(n) (r)
+//@   reveal wfNode, assignExpr, matcherExpr, exprType, objNameOf, parentOf, returnsError, objNullable, nullCheckExpr
 //@   requires wfNode(box(n))
 //@   ensures {C02,C01,C06} r == assignExpr(box(n))
 //@ func (StructFieldNode).MatcherExpr(n) (r)
+//@   reveal wfNode, assignExpr, matcherExpr, exprType, objNameOf, parentOf, returnsError, objNullable, nullCheckExpr
 //@   requires wfNode(box(n))
 //@   ensures {C06} r == matcherExpr(box(n))
 //@ func (StructFieldNode).ExprType(n) (r)
+//@   reveal wfNode, assignExpr, matcherExpr, exprType, objNameOf, parentOf, returnsError, objNullable, nullCheckExpr
 //@   requires wfNode(box(n))
 //@   ensures {C04,C01} r == exprType(box(n))
 //@ func (StructFieldNode).ObjName(n) (r)
+//@   reveal wfNode, assignExpr, matcherExpr, exprType, objNameOf, parentOf, returnsError, objNullable, nullCheckExpr
 //@   requires wfNode(box(n))
 //@   ensures {C04} r == objNameOf(box(n))
 //@ func (StructFieldNode).Parent(n) (r)
+//@   reveal wfNode, assignExpr, matcherExpr, exprType, objNameOf, parentOf, returnsError, objNullable, nullCheckExpr
 //@   requires wfNode(box(n))
 //@   ensures {C06} r == parentOf(box(n))
 //@ func (StructFieldNode).ReturnsError(n) (r)
+//@   reveal wfNode, assignExpr, matcherExpr, exprType, objNameOf, parentOf, returnsError, objNullable, nullCheckExpr
 //@   requires wfNode(box(n))
 //@   ensures {C07} r == returnsError(box(n))
 //@ func (StructFieldNode).ObjNullable(n) (r)
+//@   reveal wfNode, assignExpr, matcherExpr, exprType, objNameOf, parentOf, returnsError, objNullable, nullCheckExpr
 //@   requires wfNode(box(n))
 //@   ensures {C02} r == objNullable(box(n))
 //@ func (StructFieldNode).NullCheckExpr(n) (r)
+//@   reveal wfNode, assignExpr, matcherExpr, exprType, objNameOf, parentOf, returnsError, objNullable, nullCheckExpr
 //@   requires wfNode(box(n))
 //@   ensures {C02} r == nullCheckExpr(box(n))
 //@ func (StructMethodNode).AssignExpr(n) (r)
+//@   reveal wfNode, assignExpr, matcherExpr, exprType, objNameOf, parentOf, returnsError, objNullable, nullCheckExpr
 //@   requires wfNode(box(n))
 //@   use T3(n.method)
 //@   ensures {C02,C01,C06} r == assignExpr(box(n))
 //@ func (StructMethodNode).MatcherExpr(n) (r)
+//@   reveal wfNode, assignExpr, matcherExpr, exprType, objNameOf, parentOf, returnsError, objNullable, nullCheckExpr
 //@   requires wfNode(box(n))
 //@   use T3(n.method)
 //@   ensures {C06} r == matcherExpr(box(n))
 //@ func (StructMethodNode).ExprType(n) (r)
+//@   reveal wfNode, assignExpr, matcherExpr, exprType, objNameOf, parentOf, returnsError, objNullable, nullCheckExpr
 //@   requires wfNode(box(n))
 //@   use T3(n.method)
 //@   ensures {C04,C01} r == exprType(box(n))
 //@ func (StructMethodNode).ObjName(n) (r)
+//@   reveal wfNode, assignExpr, matcherExpr, exprType, objNameOf, parentOf, returnsError, objNullable, nullCheckExpr
 //@   requires wfNode(box(n))
 //@   use T3(n.method)
 //@   ensures {C04} r == objNameOf(box(n))
 //@ func (StructMethodNode).Parent(n) (r)
+//@   reveal wfNode, assignExpr, matcherExpr, exprType, objNameOf, parentOf, returnsError, objNullable, nullCheckExpr
 //@   requires wfNode(box(n))
 //@   use T3(n.method)
 //@   ensures {C06} r == parentOf(box(n))
 //@ func (StructMethodNode).ReturnsError(n) (r)
+//@   reveal wfNode, assignExpr, matcherExpr, exprType, objNameOf, parentOf, returnsError, objNullable, nullCheckExpr
 //@   requires wfNode(box(n))
 //@   use T3(n.method)
 //@   ensures {C07} r == returnsError(box(n))
 //@ func (StructMethodNode).ObjNullable(n) (r)
+//@   reveal wfNode, assignExpr, matcherExpr, exprType, objNameOf, parentOf, returnsError, objNullable, nullCheckExpr
 //@   requires wfNode(box(n))
 //@   use T3(n.method)
 //@   ensures {C02} r == objNullable(box(n))
 //@ func (StructMethodNode).NullCheckExpr(n) (r)
+//@   reveal wfNode, assignExpr, matcherExpr, exprType, objNameOf, parentOf, returnsError, objNullable, nullCheckExpr
 //@   requires wfNode(box(n))
 //@   use T3(n.method)
 //@   ensures {C02} r == nullCheckExpr(box(n))
 //@
 //@ func NewRootNode(name, typ) (r)
+//@   reveal wfNode, assignExpr, matcherExpr, exprType, objNameOf, parentOf, returnsError, objNullable, nullCheckExpr
 //@   ensures {C02} r.name == name && r.typ == typ
 //@ func NewStructFieldNode(container, field) (r)
+//@   reveal wfNode, assignExpr, matcherExpr, exprType, objNameOf, parentOf, returnsError, objNullable, nullCheckExpr
 //@   ensures {C02,C04} r.parent == container && r.field == field
 //@ func NewStructMethodNode(container, method) (r)
+//@   reveal wfNode, assignExpr, matcherExpr, exprType, objNameOf, parentOf, returnsError, objNullable, nullCheckExpr
 //@   ensures {C02,C04} r.container == container && r.method == method
 //@ func NewConverterNode(arg, converter) (r)
+//@   reveal wfNode, assignExpr, matcherExpr, exprType, objNameOf, parentOf, returnsError, objNullable, nullCheckExpr
 //@   ensures {C06,C07} r == box(ConverterNode{arg: arg, converter: converter})
 //@ func NewStringer(inner) (r)
+//@   reveal wfNode, assignExpr, matcherExpr, exprType, objNameOf, parentOf, returnsError, objNullable, nullCheckExpr
 //@   ensures {C04} r == box(StringerEntry{inner: inner})
 //@
 //@ spec baseCast(sc *types.Scope, i util.ImportNames, d types.Type) string =
@@ -350,17 +411,20 @@ package model
 //@     cond(isPtrT(t), "(*" + baseCast(sc, i, derefT(t)) + ")", baseCast(sc, i, derefT(t)))
 //@
 //@ func NewTypecast(scope, imports, t, inner) (r, ok)
+//@   reveal wfNode, assignExpr, matcherExpr, exprType, objNameOf, parentOf, returnsError, objNullable, nullCheckExpr
 //@   requires scope != nil && t != nil
 //@   ensures {C04,C01} ok == (is(derefT(t), *types.Named) || is(derefT(t), *types.Basic))
 //@   ensures {C04,C01,C02} ok ==> r == box(TypecastEntry{inner: inner, typ: t, expr: castExpr(scope, imports, t)})
 //@   ensures !ok ==> r == nil
 //@
 //@ func IterateStructFields(structNode, cb)
+//@   reveal wfNode, assignExpr, matcherExpr, exprType, objNameOf, parentOf, returnsError, objNullable, nullCheckExpr
 //@   requires wfNode(structNode)
 //@   use T0(derefT(exprType(structNode))), T0(underlying(derefT(exprType(structNode))))
 //@   iterates cb count nFieldsOf(exprType(structNode)) elem box(StructFieldNode{parent: structNode, field: fieldAt(structOf(exprType(structNode)), $i)})
 //@   iter IterateFields invariant $it.next == $k && $it.stopped == $done
 //@ func IterateStructMethods(structNode, cb)
+//@   reveal wfNode, assignExpr, matcherExpr, exprType, objNameOf, parentOf, returnsError, objNullable, nullCheckExpr
 //@   requires wfNode(structNode)
 //@   use T0(derefT(exprType(structNode)))
 //@   iterates cb count nMethodsOf(exprType(structNode)) elem box(StructMethodNode{container: structNode, method: methodAt(namedOf(exprType(structNode)), $i)}) when compliesGetter(methodAt(namedOf(exprType(structNode)), $i))
